@@ -208,9 +208,9 @@ def scaling_probe(ctx, classes, n_schema, gen):
                 # a loaded machine (other processes competing for cores, caches and memory) makes LARGE allocations slower per
                 # unit than small ones: re-measure several times, and scale the threshold by what a plainly linear workload of
                 # the same allocation pattern shows at the same two sizes at the same moment
-                for _ in range(3):
-                    time.sleep(1.0)
-                    ts, tl = min(ts, best(cls, ds, reps=3)), min(tl, best(cls, dl, reps=3))
+                for _ in range(3 if tl < 5.0 else 0):        # (bounded: slow cases are decided by the calibration alone)
+                    time.sleep(0.5)
+                    ts, tl = min(ts, best(cls, ds, reps=1)), min(tl, best(cls, dl, reps=1))
                 env = max(1.0, linear_reference(len(dl) // max(len(ds), 1)))
                 verdict = "super-linear" if (tl > 0.4 and tl > 32 * env * max(ts, 1e-4)) else "linear"
             out.append({"class": _codec.cls_name(classes, idx), "shape": shape, "bytes": [len(ds), len(dl)],
